@@ -34,16 +34,29 @@ ASSUMPTIONS = [
 ]
 
 
-def machine_spec(svc_kind: str):
+def machine_spec(svc_kind: str, root_svc: bool = False):
     kid_root = {"key": "kid", "kind": "compound", "initial": "k1", "children": [
         {"key": "k1", "kind": "atomic", "after": [[40, [{"target": ["k2"], "actions": []}]]], "on": [["KPING", [{"target": None, "actions": []}]]]},
         {"key": "k2", "kind": "atomic", "after": [[40, [{"target": ["k1"], "actions": []}]]]}]}
     kid = {"id": "kid", "root": kid_root, "context": {}, "maxIterations": 30, "tables": {}, "services": {}}
     finalize(kid)
+    # kid2: spawns a grandchild of its own on entry and reaches its top-level final state 20 ms later,
+    # i.e. a child that is `done` while its own child keeps running
+    grand_root = {"key": "grand", "kind": "compound", "initial": "g1", "children": [
+        {"key": "g1", "kind": "atomic", "after": [[40, [{"target": ["g2"], "actions": []}]]]},
+        {"key": "g2", "kind": "atomic", "after": [[40, [{"target": ["g1"], "actions": []}]]]}]}
+    grand = {"id": "grand", "root": grand_root, "context": {}, "maxIterations": 30, "tables": {}, "services": {}}
+    finalize(grand)
+    kid2_root = {"key": "kid2", "kind": "compound", "initial": "w", "children": [
+        {"key": "w", "kind": "atomic", "entry": [{"k": "raw", "cfg": {"type": "spawn_grand"}}], "after": [[20, [{"target": ["kfin"], "actions": []}]]]},
+        {"key": "kfin", "kind": "final"}]}
+    kid2 = {"id": "kid2", "root": kid2_root, "context": {}, "maxIterations": 30, "tables": {}, "services": {"grand": {"k": "machine", "child": grand}}}
+    finalize(kid2)
     root = {"key": "m", "kind": "compound", "initial": "idle", "children": [
         {"key": "idle", "kind": "atomic", "on": [
             ["GO", [{"target": ["work"], "actions": []}]],
             ["SPAWN", [{"target": None, "actions": [{"k": "raw", "cfg": {"type": "spawn_kid"}}]}]],
+            ["SPAWN2", [{"target": None, "actions": [{"k": "raw", "cfg": {"type": "spawn_kid2"}}]}]],
             ["DSEND", [{"target": None, "actions": [{"k": "raise", "event": "LATE", "delay": 60, "id": "ds"}]}]],
             ["DSEND2", [{"target": None, "actions": [{"k": "raise", "event": "LATE", "delay": 70}]}]],
             ["LATE", [{"target": None, "actions": []}]],
@@ -59,14 +72,21 @@ def machine_spec(svc_kind: str):
     ]}
     services = {"svc": {"k": svc_kind, "outcome": "return", "ms": 80, "value": 1},
                 "boom": {"k": "sync", "outcome": "raise", "value": 0},
-                "kid": {"k": "machine", "child": kid}}
+                "kid": {"k": "machine", "child": kid}, "kid2": {"k": "machine", "child": kid2}}
+    # a timer owned by the root: no state exit ever cancels it, only stop() does - also after completion
+    root["after"] = [[300, [{"target": None, "actions": []}]]]
+    if root_svc:
+        # async only: a service invoked by the root that fails late (120 ms) with no onError; once the
+        # machine is done the failure must not move it to `error`
+        services["lateboom"] = {"k": "coro", "outcome": "raise", "ms": 120, "value": 0}
+        root["invoke"] = [{"src": "lateboom", "id": "ilb"}]
     spec = {"id": "m", "root": root, "context": {"n": 0}, "maxIterations": 30, "tables": {}, "services": services,
             "impls": {"slow": {"k": "slow", "ms": 30}}}
     finalize(spec)
     return spec
 
 
-EVENTS = ["GO", "SPAWN", "DSEND", "DSEND2", "FIN", "BAD", "STOPWORK", "SLOW", "GO", "SPAWN", "PINGX"]
+EVENTS = ["GO", "SPAWN", "SPAWN2", "DSEND", "DSEND2", "FIN", "FIN", "BAD", "STOPWORK", "SLOW", "GO", "SPAWN", "PINGX"]
 
 
 def plan(tier):
@@ -97,6 +117,7 @@ def strategy(tier, campaign):
         "svc": st.sampled_from(["sync", "coro"]),
         "spawner_first": st.booleans() if spawner_first_allowed else st.just(False),
         "ops": st.lists(op, min_size=2, max_size=16),
+        "root_svc": st.sampled_from([False, False, False, True]),
     })
 
 
@@ -128,7 +149,7 @@ def check_case(case) -> CaseResult:
     res = CaseResult()
     engine = case["engine"]
     svc = case["svc"] if engine == "async" else "sync"
-    spec = machine_spec(svc)
+    spec = machine_spec(svc, root_svc=bool(case.get("root_svc")) and engine == "async")
     ops = _number(case["ops"]) + [["stop"], ["advance", 400]]
     opts = {"no_autostart": True, "budget": 8000, "yield_on_start": not case["spawner_first"]}
     run = drivers.ENGINES[engine](spec, ops, opts)
@@ -148,7 +169,9 @@ def check_case(case) -> CaseResult:
         st_ = o.status
         # the spawned child shares the Recorder; its own timers keep running (legitimately) while the
         # parent is done / failed, so its actions are not "something the call did"
-        acts = [e for e in o.log if e[0] == "act" and not (e[1].startswith(("en:kid", "ex:kid")) or ".kid." in (str(e[2]) + "."))]
+        acts_all = [e for e in o.log if e[0] == "act"]
+        acts = [e for e in o.log if e[0] == "act" and not (e[1].startswith(("en:kid", "ex:kid", "en:grand", "ex:grand"))
+                                                        or any(x in (str(e[2]) + ".") for x in (".kid.", ".kid2.", ".grand.")))]
         recvs = [e for e in o.log if e[0] == "recv"]
         if prev is not None and prev.op[0] == "send!" and prev_status == "running":
             # the previous send was left unprocessed on purpose: what runs now belongs to it
@@ -175,8 +198,11 @@ def check_case(case) -> CaseResult:
             elif prev_status in ("running", "done", "error"):
                 if o.exc:
                     res.violate(f"{engine}|start-while-{prev_status}-raised|{o.exc}", {})
-                if acts and prev is not None and prev.op[0] != "restore":
-                    res.violate(f"{engine}|start-while-{prev_status}-ran-actions", {"acts": [a[1] for a in acts][:4]})
+                # only what a (re)start itself would run: entry actions / the init event. A timer or a
+                # delayed send coming due at the very instant of the call is not the call's doing.
+                own = [a for a in acts if a[1].startswith("en:") or str(a[2]).startswith(("entry.", "___xstate"))]
+                if own and prev is not None and prev.op[0] != "restore":
+                    res.violate(f"{engine}|start-while-{prev_status}-ran-actions", {"acts": [a[1] for a in own][:4]})
                 if prev_status in ("done", "error"):
                     nontrivial = True
             elif prev_status == "uninitialized" and o.exc:
@@ -208,10 +234,11 @@ def check_case(case) -> CaseResult:
         # ---- after stop nothing is delivered
         if prev_status == "stopped" and op[0] == "advance":
             nontrivial = True
-            late = [a[1] for a in acts] + [r[1] for r in recvs]
+            # (descendant actors included: after the parent's stop() nobody in the tree acts any more)
+            late = [a[1] for a in acts_all] + [r[1] for r in recvs]
             if late:
-                what = "child" if all(x.startswith(("en:kid", "ex:kid", "t")) and "kid" in x for x in late if ":" in x) else "own"
-                res.violate(f"{engine}|delivery-after-stop|{sched_tag}", {"late": late[:6], "dt": op[1]})
+                who = "descendant" if not ([a for a in acts] + recvs) else "own"
+                res.violate(f"{engine}|delivery-after-stop|{who}|{sched_tag}", {"late": late[:6], "dt": op[1]})
         prev_status = st_
         prev = o
     # ---- census after the final stop
